@@ -179,6 +179,30 @@ Theorem C20_response_sent_once :
 Proof. exact (ctl_send_disables_itself nh_today). Qed.
 Print Assumptions C20_response_sent_once.
 
+(* XTCPProxy.Close ([EvProxyClose]: BaseProxy.Close; CloseClient synchronously; close(closeCh) -- that this is what
+   server/proxy/xtcp.go does today is part of C20_source_tables_check) can be taken in EVERY state, whatever the proxy's
+   hand-over goroutine is doing (idle in its select, or up to 10 s inside GetWorkConnFromPool for an earlier visitor's sid),
+   and when it returns the controller does not list the proxy any more and no session was touched *)
+Theorem C20_close_unregisters_in_every_state :
+  forall auth st name,
+  exists st', ctl_step nh_today auth st (EvProxyClose name) = Some (st', []) /\
+              ctl_find_cfg name (st_cfgs st') = None /\ st_sess st' = st_sess st.
+Proof. exact (ctl_proxy_close nh_today). Qed.
+Print Assumptions C20_close_unregisters_in_every_state.
+
+(* all interleavings after Close has returned (any events of other sessions, of the closed proxy's still running goroutine,
+   of other proxies -- anything but a new registration of that very name): a HandleVisitor naming the closed proxy, signed or
+   pre-check, gets "doesn't exist" and creates no session *)
+Theorem C20_no_session_for_closed_proxy :
+  forall auth st name st1 o1 evs vm tr user st3 o3,
+  ctl_step nh_today auth st (EvProxyClose name) = Some (st1, o1) ->
+  Forall (fun e => forall sk allow, e <> EvListen name sk allow) evs ->
+  vm_proxy vm = name ->
+  ctl_step nh_today auth (fst (ctl_run nh_today auth st1 evs)) (EvVisitor vm tr user) = Some (st3, o3) ->
+  st3 = fst (ctl_run nh_today auth st1 evs) /\ o3 = [OutReply tr (nh_err_resp (vm_tid vm) NeNoProxy)].
+Proof. exact (ctl_no_session_for_closed_proxy nh_today). Qed.
+Print Assumptions C20_no_session_for_closed_proxy.
+
 (* WHOLE SCHEDULES: over any schedule, for every session t and each of the two parties, the number of NatHoleResp sent on
    behalf of t ([ctl_cnt]: OutResp t role _ _ in the output trace) is 0 or 1; it is exactly 1 for the visitor's control AND
    exactly 1 for the owner's control once the exchange completed, and 0 for both when the session ended by a timeout or is
